@@ -441,11 +441,18 @@ def isPySpace (c : Char) : Bool :=
 def pyStrip (s : String) : String :=
   String.ofList ((s.toList.dropWhile isPySpace).reverse.dropWhile isPySpace).reverse
 
+/-- `str.split(',')` on the character list -/
+def splitComma : List Char → List (List Char)
+  | [] => [[]]
+  | c :: t => match splitComma t with
+    | [] => [[]]
+    | h :: rest => if c = ',' then [] :: h :: rest else (c :: h) :: rest
+
 /-- `_selection_to_list(products, all=cal_streams, default=DEFAULT_CAL_PRODUCTS)` -/
 def selectionToList (r : Req) (all dflt : List String) : List String :=
   match r with
   | .str s => if s = "" then [] else if s = "all" then all else if s = "default" then dflt
-              else (s.splitOn ",").map pyStrip
+              else (splitComma s.toList).map fun cs => pyStrip (String.ofList cs)
   | .seq l => l
 
 /-- the `for product in requested_cal_products` loop of `_normalise_cal_products` -/
